@@ -241,6 +241,9 @@ func (s *Sched) dispatch(t *thread) {
 	if n == t {
 		return
 	}
+	// After the hand-off another goroutine runs: t may only touch its own
+	// wake channel from here on (its state can be changed by a Broadcast).
+	done := t.state == tsDone
 	if n == nil {
 		// Run is over: tell Run, then wait to be killed (unless finished).
 		s.result <- struct{}{}
@@ -248,7 +251,7 @@ func (s *Sched) dispatch(t *thread) {
 		cur = n
 		n.wake <- struct{}{}
 	}
-	if t.state == tsDone {
+	if done {
 		return
 	}
 	<-t.wake
